@@ -91,7 +91,7 @@ fn slot_name(scheme: u8, slot: usize) -> String {
             0 => String::new(),
             1 => format!("日本{}", slot),
             2 => "A".to_string(),
-            _ => format!("ｿ{}", slot),
+            _ => format!("{}ﾂｱ", slot),
         },
         // every name the empty string (all cells share one text entry)
         _ => String::new(),
